@@ -576,6 +576,7 @@ def ignore_order_clause(ctx, n):
     rng = ctx.rng
     pool = [None, True, 2, 3, 0.5, 1.5, "a", "b", "", "ab", b"x", 7, -1]
     cases = []
+    lev_cases = []
     for k in range(n):
         a = rng.sample(pool, rng.randint(0, 7))
         if rng.random() < 0.4:       # an edit of a: shares most items, so that pairing and survivors occur
@@ -594,11 +595,24 @@ def ignore_order_clause(ctx, n):
         # C01_ignore_order_perm_partial covers the root, C01_ignore_order_perm_at_path_partial every path through dict levels
         # (keys not hidden: plant_ld never uses a '__' key); list levels are covered by correspondence + direct oracle only
         path = D_path_to(t1, a)
-        ctx.count("ignore_order_domain:" + ("root_theorem" if not path else
-                                            "at_path_theorem(dict_levels)" if all(isinstance(_at_prefix(t1, path, i), dict) for i in range(len(path)))
-                                            else "list_level(correspondence_only)"))
+        dom = ("root_theorem" if not path else
+               "at_path_theorem(dict_levels)" if all(isinstance(_at_prefix(t1, path, i), dict) for i in range(len(path))) else "list_level")
         try:
             dd, d, r, nerr, tbl = io_run(t1, t2)
+            if dom == "list_level":
+                # C01_ignore_order_perm_below_lists_partial asks that the pairing of every list level on the way pairs exactly the two
+                # planted items (observed here on the recorded pairings); the separation of the siblings' item hashes is a hypothesis
+                # about the hasher and is not observed
+                dom = "below_lists_theorem(planted_items_paired)" if _levels_paired(t1, path, tbl) else "list_level_unpaired_or_equal(correspondence_only)"
+            ctx.count("ignore_order_domain:" + dom)
+            if path and (ctx.thorough or k % 2 == 0):
+                # the hypothesis lev_ok of C01_ignore_order_perm_below_lists_partial / _at_path_partial as a Coq boolean (lev_okb, sound) on the
+                # generated context with the recorded pairings and the correspondence's hasher; and the context really is t1 / t2
+                expr = ("SL [sx_lev_ok hexhash %s (tbl_pairs %s) %s %s %s; sx_value_unordered (fill %s %s); sx_value_unordered (fill %s %s)]" % (
+                    D.coq_cfg(False, 0.33), C5.coq_pairs_table(tbl), coq_levels(t1, path), V.to_coq(a), V.to_coq(b),
+                    coq_levels(t1, path), V.to_coq(a), coq_levels(t1, path), V.to_coq(b)))
+                lev_cases.append((expr, [dom != "list_level_unpaired_or_equal(correspondence_only)", DC.canon_unordered(t1), DC.canon_unordered(t2)],
+                                  dict(t1=repr(t1), t2=repr(t2), hypothesis="lev_ok", pairs=repr([(p_, ji) for p_, ji, _x, _y in tbl]))))
             x = r
             for step in path:
                 x = x[step]
@@ -624,6 +638,7 @@ def ignore_order_clause(ctx, n):
             if d.diff.get("iterable_items_added_at_indexes") or d.diff.get("iterable_items_removed_at_indexes"):
                 ctx.count("ignore_order_cases_with_index_maps")
     ctx.coq_cases("c01io", DC.IO_HDR, cases, shard=16, label="ignore_order payload+apply")
+    ctx.coq_cases("c01iol", LEV_HDR, lev_cases, shard=40, label="ignore_order: hypothesis lev_ok of the at-path / below-lists theorems")
 
 
 def _canon_nested_unordered(v):
@@ -693,6 +708,71 @@ def ignore_order_beyond(ctx, n):
         exp = [DC.delta_io_obs(d.diff), [DC.canon_unordered(r), nerr > 0]]
         cases.append((expr, exp, dict(t1=repr(a), t2=repr(b), ignore_order=True, report_repetition=True, kind=kind)))
     ctx.coq_cases("c01iox", DC.IO_HDR, cases, shard=30, label="ignore_order beyond the text: repetitions / nested (extension)")
+
+
+INPLACE_HDR = DC.HDR[:-1] + " Delta.DeltaInplace."
+
+
+def has_tuple_in_tuple(v):
+    if isinstance(v, tuple) and any(isinstance(x, tuple) for x in v):
+        return True
+    if isinstance(v, (list, tuple)):
+        return any(has_tuple_in_tuple(x) for x in v)
+    if isinstance(v, dict):
+        return any(has_tuple_in_tuple(x) for x in v.values())
+    return False
+
+
+def inplace_tuple_stream(ctx, n):
+    """list / dict (and set, tuple) items of TUPLES: the shared DeltaModel.upd refuses every write below a tuple, the code
+    edits a list / dict item in place.  The refinement Delta/DeltaInplace.v (module T: DeltaModel's passes over an upd that puts
+    a list / dict child of a tuple back) is compared with the implementation on pairs OUTSIDE in_guard because of a
+    container inside a tuple: payload + applied result + error flag.  Direct oracle there: when no tuple item has to be
+    replaced as an object (tuple_item_replaced false: F4's exact feature absent) the round trip must hold."""
+    rng = ctx.rng
+    cases, done = [], 0
+    fixed = [(([1, 2], 3), ([9, 1, 2], 3)), (({'a': 1}, 3), ({'a': 1, 'b': 2}, 3)), ((1, {2}), (1, {3})),
+             ({'k': ([1, {'x': (1, 2)}], 'u')}, {'k': ([1, {'x': (1, 5), 'y': None}], 'u')}), (([1, 2], 3), ([1], 3))]
+    for it in range(12 * n):
+        if done >= n:
+            break
+        if it < len(fixed):
+            t1, t2 = copy.deepcopy(fixed[it])
+        else:
+            t1 = V.gen_value(rng, depth=rng.choice([2, 3]), width=3, kinds="TTLD" + rng.choice(["", "S", "A"]))
+            vals, _k = V.edit_script(rng, t1, rng.randint(1, 2), alias=False)
+            t2 = vals[-1]
+        d0 = describe(t1, t2)
+        if not d0["container_in_tuple"] or d0["alias"] or d0["set_to_seq_type_change"] or not D.in_model_guard(t1, t2):
+            continue
+        if not DC.guardsb_py(t1, t2, True, True) and not DC.alias_free_py(t1, t2):
+            continue
+        zip_, thr, always = rng.random() < 0.5, rng.choice(THRS), rng.random() < 0.5
+        cfg = dict(zip_ordered_iterables=zip_, threshold_to_diff_deeper=thr)
+        out = run_impl(t1, t2, cfg, always)
+        ctx.seen(("inplace", repr(t1), repr(t2), zip_, thr, always), nontrivial=not V.typed_eq(t1, t2))
+        if "exc" in out:
+            ctx.count("inplace_tuple:raised_%s(%s)" % (type(out["exc"]).__name__, "F4_feature" if d0["tuple_item_replaced"] else "NO_F4_feature"))
+            if not d0["tuple_item_replaced"]:
+                oracle(ctx, t1, t2, cfg, always, out)
+            continue
+        done += 1
+        good = V.typed_eq(out["result"], t2) and not out["errors"] and out["unmodified"]
+        ctx.count("inplace_tuple:%s:%s" % ("tuple_item_replaced(F4)" if d0["tuple_item_replaced"] else "edited_in_place", "holds" if good else "fails"))
+        if not good and not d0["tuple_item_replaced"]:
+            oracle(ctx, t1, t2, cfg, always, out)
+        if has_tuple_in_tuple(t1) or has_tuple_in_tuple(t2):
+            # a tuple that is an item of a tuple: the coerced outer tuple can silently stay a list, post-processing can raise
+            # RuntimeError - neither DeltaModel nor the refinement T follows the code there (F4's nested-tuple variant)
+            ctx.count("inplace_tuple:nested_tuple(not_compared_with_the_model)")
+            continue
+        d, dd = out["delta"], out["dd"]
+        rem, add = DC.impl_orders(d)
+        conv = DC.conv_table(DC.type_change_pairs(dd.tree))
+        expr = DC.model_expr(t1, t2, zip_, thr, False, always, t1, conv, rem, add).replace("sx_result (apply cv", "sx_result (T.apply cv")
+        exp = [DC.delta_obs(d.diff), [DC.canon_unordered(out["result"]), out["errors"] > 0]]
+        cases.append((expr, exp, dict(t1=repr(t1), t2=repr(t2), zip=zip_, thr=thr, always=always, stream="inplace_tuple")))
+    ctx.coq_cases("c01t", INPLACE_HDR, cases, shard=60, label="container items of tuples: payload + in-place apply (DeltaInplace.T)")
 
 
 def share_again(rng, v):
@@ -766,6 +846,39 @@ def _blank_at(v, path):
         x = x[st]
     x[path[-1]] = None
     return v
+
+
+LEV_HDR = DC.IO_HDR[:-1] + " Hash.HexHash Delta.DeltaIOLevelsB."
+
+
+def coq_levels(t1, path):
+    """the context of the planted list as a Coq `list level` (Delta/DeltaIOLevelsB.v)"""
+    out = []
+    for i, st in enumerate(path):
+        cont = _at_prefix(t1, path, i)
+        if isinstance(cont, dict):
+            items = list(cont.items())
+            j = [k for k, _ in items].index(st)
+            pr = lambda its: core.coq_list("(%s, %s)" % (V.atom_to_coq(k), V.to_coq(x)) for k, x in its)
+            out.append("LDict %s %s %s" % (pr(items[:j]), V.atom_to_coq(st), pr(items[j + 1:])))
+        else:
+            out.append("LList %s %s" % (core.coq_list(V.to_coq(x) for x in cont[:st]), core.coq_list(V.to_coq(x) for x in cont[st + 1:])))
+    return core.coq_list(out)
+
+
+def _levels_paired(t1, path, tbl):
+    """at every LIST level on the way to the planted list the recorded pairing is exactly [(n, n)], n the planted index"""
+    cpath = []
+    for i, st in enumerate(path):
+        cont = _at_prefix(t1, path, i)
+        if isinstance(cont, list):
+            ent = [e for e in tbl if list(map(list, e[0])) == cpath or e[0] == cpath]
+            if not ent or [tuple(ji) for ji in ent[0][1]] != [(st, st)]:
+                return False
+            cpath = cpath + [["x", st]]
+        else:
+            cpath = cpath + [["k", V.canon_atom(st)]]
+    return True
 
 
 def _at_prefix(v, path, i):
@@ -887,6 +1000,10 @@ def run(ctx):
     from harness import c01free
     c01free.stream(ctx)
     lap("free_payloads")
+
+    # list / dict items of tuples are edited in place: the refinement Delta/DeltaInplace.v against the implementation
+    inplace_tuple_stream(ctx, 400 if ctx.thorough else 60)
+    lap("inplace_tuple_items")
 
     # beyond the property's text / quantifier: recorded, never a violation
     with ctx.extension("IgnoreOrderBeyondText"):
